@@ -73,6 +73,20 @@
 (assert (forall ((s Str) (q Int) (a Int) (b Int) (e Int)) (! (=> (and (sbody s q a b) (< b (Str.len s)) (not (= (runeAt s b) q)) (not (= (runeAt s b) 10)) (not (= (runeAt s b) 92)) (= e (+ b (runeWidth s b)))) (sbody s q a e)) :pattern ((sbody s q a b) (sbody s q a e)))))
 (assert (forall ((s Str) (q Int) (a Int) (b Int) (e Int)) (! (=> (and (sbody s q a b) (< (+ b 1) (Str.len s)) (= (runeAt s b) 92) (not (= (runeAt s (+ b 1)) 10)) (= e (+ (+ b 1) (runeWidth s (+ b 1))))) (sbody s q a e)) :pattern ((sbody s q a b) (sbody s q a e)))))
 
+; the decoded value of a string literal body [a,b): without a backslash the text itself; from the first backslash on,
+; the builder content sdecV: the text before it, then every rune, an escaped rune standing for itself except n -> newline, t -> tab.
+; nobs / hasBS are the two phases (no backslash met yet / met), least predicates given by their rules like sbody.
+(define-fun escRune ((c Int)) Int (ite (= c 110) 10 (ite (= c 116) 9 c)))
+(declare-fun nobs (Str Int Int) Bool)
+(declare-fun hasBS (Str Int Int) Bool)
+(declare-fun sdecV (Str Int Int) Out)
+(assert (forall ((s Str) (a Int)) (! (nobs s a a) :pattern ((nobs s a a)))))
+(assert (forall ((s Str) (a Int) (b Int) (e Int)) (! (=> (and (nobs s a b) (< b (Str.len s)) (not (= (runeAt s b) 92)) (= e (+ b (runeWidth s b)))) (nobs s a e)) :pattern ((nobs s a b) (nobs s a e)))))
+(assert (forall ((s Str) (a Int) (b Int) (e Int)) (! (=> (and (nobs s a b) (< (+ b 1) (Str.len s)) (= (runeAt s b) 92) (= e (+ (+ b 1) (runeWidth s (+ b 1))))) (and (hasBS s a e) (= (sdecV s a e) (ORune (OStr OEmpty (Str.slice s a b)) (escRune (runeAt s (+ b 1))))))) :pattern ((nobs s a b) (hasBS s a e)))))
+(assert (forall ((s Str) (a Int) (b Int) (e Int)) (! (=> (and (hasBS s a b) (< b (Str.len s)) (not (= (runeAt s b) 92)) (= e (+ b (runeWidth s b)))) (and (hasBS s a e) (= (sdecV s a e) (ORune (sdecV s a b) (runeAt s b))))) :pattern ((hasBS s a b) (hasBS s a e)))))
+(assert (forall ((s Str) (a Int) (b Int) (e Int)) (! (=> (and (hasBS s a b) (< (+ b 1) (Str.len s)) (= (runeAt s b) 92) (= e (+ (+ b 1) (runeWidth s (+ b 1))))) (and (hasBS s a e) (= (sdecV s a e) (ORune (sdecV s a b) (escRune (runeAt s (+ b 1))))))) :pattern ((hasBS s a b) (hasBS s a e)))))
+(define-fun sdecS ((s Str) (a Int) (b Int)) Str (Out.str (sdecV s a b)))
+
 ; gap(s,a,b): [a,b) holds only white space and // comments
 (declare-fun noNL (Str Int Int) Bool)
 (assert (forall ((s Str) (a Int)) (! (noNL s a a) :pattern ((noNL s a a)))))
